@@ -64,7 +64,7 @@ def real_scenarios(draw, with_faults=True, kinds=None, only=None, fault_share=7)
         big = draw(st.integers(0, 7)) == 0
         plans[tok] = bound_cost(draw(gen.h2_plans(big=big) if h2 else gen.h1_plans(big=big)))
     sc = {"kind": kind, "variant": draw(st.sampled_from(VARIANTS)), "requests": reqs, "plans": plans,
-          "verify": draw(st.sampled_from(["none", "none", "ca"])), "fault": None}
+          "verify": draw(st.sampled_from(["none", "none", "ca"])), "fault": None, "ragged_close": draw(st.sampled_from([False, False, True]))}
     if with_faults and draw(st.integers(0, 9)) < fault_share:
         tls = kind in TLS_KINDS
         choices = ["truncate", "truncate", "reset", "reset", "stall", "stall", "refuse", "connect-stall", "read-stall"]
@@ -96,9 +96,9 @@ def timeouts_for(sc):
     k = f.get("kind")
     t = {"connect": LONG, "read": LONG, "write": LONG, "pool": LONG}
     if k == "stall":
-        t["read"] = SHORT
-        if sc["kind"].startswith("socks"):
-            t["connect"] = SHORT  # SOCKS negotiation reads run under the connect timeout
+        # whatever the client does next waits for the silent peer: a read, a SOCKS negotiation step (connect timeout) or the TLS handshake inside a
+        # tunnel whose CONNECT reply had just been completed (connect timeout)
+        t["read"] = t["connect"] = SHORT
     elif k in ("tls-stall", "connect-stall"):
         t["connect"] = SHORT
     elif k == "read-stall":
@@ -162,6 +162,7 @@ def run_real(sc, variant=None):
     with warnings.catch_warnings(record=True) as caught:
         warnings.simplefilter("always", ResourceWarning)
         with RealNet(cfg, fault) as net:
+            net.ragged_close = bool(sc.get("ragged_close"))
             if variant == "sync":
                 pool = build_real_pool(pool_cfg, True, sc["verify"], small_buffers=small)
                 for s in specs:
@@ -279,6 +280,7 @@ def judge(sc, rec):
             if name.endswith("Timeout") and SHORT in timeouts_for(sc).values():
                 continue  # a 0.06 s timeout that was configured for the fault expired before the fault was reached (busy machine): inconclusive
             v["C15"].append(V("C15", "error-without-cause", f"{what}: request {i} raised {exc['type']}: {exc['msg']} although server and network behaved", exc=name, **base))
+            v["C02"].append(V("C02", "exception", f"{what}: request {i}: a well-formed response raised {exc['type']}: {exc['msg']}", exc=name, **base))
             continue
         allowed = set(ALLOWED[fk])
         if fk == "tls-garbage" and any(p["fault"] and p["fault"].get("depth") == 0 for p in rec["pipes"]):
@@ -313,6 +315,8 @@ def judge(sc, rec):
     if rec["unclosed"]:
         v["C06"].append(V("C06", "socket-dropped-unclosed", f"{what}: {rec['unclosed'][:3]}", **base))
     tags = [kind, "variant-" + rec["variant"], "fault-" + (fk or "none") + ("" if fired or not fk else "-not-reached"), f"requests={len(sc['requests'])}"]
+    if sc.get("ragged_close") and kind in TLS_KINDS:
+        tags.append("tls-close-without-close_notify")
     if any(p["tls"] >= 2 for p in rec["pipes"]):
         tags.append("tls-in-tls")
     if any(o["exc"] is None and len(o["body"]) > 60000 for o in rec["outs"]):
@@ -354,7 +358,10 @@ DETERMINISTIC_FAULTS = (None, "refuse", "connect-stall", "stall", "tls-alert", "
 @st.composite
 def diff_scenarios(draw):
     sc = draw(real_scenarios())
-    if (sc.get("fault") or {}).get("kind") not in DETERMINISTIC_FAULTS:
+    fk = (sc.get("fault") or {}).get("kind")
+    if fk == "truncate" and all(r["body"] is None for r in sc["requests"]):
+        pass  # the client never writes while the connection ends: the outcome is a function of the bytes delivered
+    elif fk not in DETERMINISTIC_FAULTS:
         sc["fault"] = None  # resets / truncations / garbage race with the client's own writes: outcome classes may legitimately differ
     return sc
 
@@ -405,6 +412,145 @@ ASSUME = ["loopback TCP on 127.0.0.0/8 and binding of ports >= 1024 are availabl
           "anyio / trio / asyncio runtimes are trusted", "the only short timeouts (0.06 s) are the ones meant to expire, so verdicts do not depend on machine load; "
           "a Timeout exception in a fault-free run after >= 19 s of wall time is discarded as inconclusive", "what the client has *read* cannot be observed on a "
           "real socket: the 'previous response fully read' wire check of C01 is not evaluated here"]
+
+
+# ----------------------------------------------------------------------------- concurrent callers over real sockets (C01, C04)
+
+@st.composite
+def concurrent_scenarios(draw, h2_only=False):
+    kind = draw(st.sampled_from([k for k in KINDS if k not in REFUSALS and (is_h2(k) or not h2_only)]))
+    h2 = is_h2(kind)
+    callers, plans = [], {}
+    k = 0
+    for ci in range(draw(st.integers(2, 6))):
+        prog = []
+        for _ in range(draw(st.integers(1, 3))):
+            tok = f"c{k}"
+            k += 1
+            body = draw(st.sampled_from([None, None, "bytes", "iter", "big"]))
+            prog.append({"tok": tok, "method": "GET" if body is None else "POST", "body": body, "api": draw(st.sampled_from(["request", "stream"])),
+                         "host": draw(st.sampled_from(["a.test", "a.test", "b.test"]))})
+            plans[tok] = bound_cost(draw(gen.h2_plans(big=draw(st.integers(0, 9)) == 0) if h2 else gen.h1_plans(big=draw(st.integers(0, 9)) == 0)))
+        callers.append(prog)
+    return {"kind": kind, "variant": draw(st.sampled_from(["asyncio", "trio", "anyio-trio"])), "callers": callers, "plans": plans,
+            "max_connections": draw(st.sampled_from([1, 1, 2, 3])), "verify": "none"}
+
+
+def run_concurrent(sc):
+    pool_cfg, cfg, scheme = topo(sc["kind"], plans=sc["plans"], hosts=HOSTS, pool_extra={"max_connections": sc["max_connections"]})
+    port = port_for(scheme)
+    tmo = {"connect": LONG, "read": LONG, "write": LONG, "pool": LONG}
+    results = [[] for _ in sc["callers"]]
+    rec = {"variant": sc["variant"]}
+    with RealNet(cfg) as net:
+        net.limit = sc["max_connections"]
+
+        async def caller(pool, ci, prog):
+            for r in prog:
+                spec = {"method": r["method"], "url": f"{scheme}://{r['host']}:{port}/t/{r['tok']}", "api": r["api"], "read": "all", "timeouts": dict(tmo)}
+                b = body_for(r)
+                if b is not None:
+                    spec["content"] = b
+                o = await async_request(pool, spec)
+                o.pop("network_stream", None)
+                results[ci].append(o)
+
+        if sc["variant"] == "asyncio":
+            async def go():
+                pool = build_real_pool(pool_cfg, False, "none")
+                await asyncio.gather(*[caller(pool, i, p) for i, p in enumerate(sc["callers"])])
+                await pool.aclose()
+
+            loop = asyncio.new_event_loop()
+            try:
+                loop.run_until_complete(go())
+                loop.run_until_complete(loop.shutdown_default_executor())
+            finally:
+                loop.close()
+        else:
+            import trio
+
+            async def go():
+                pool = build_real_pool(pool_cfg, False, "none", backend=httpcore.AnyIOBackend() if sc["variant"] == "anyio-trio" else None)
+                async with trio.open_nursery() as nursery:
+                    for i, p in enumerate(sc["callers"]):
+                        nursery.start_soon(caller, pool, i, p)
+                await pool.aclose()
+
+            trio.run(go)
+        rec["not_closed"] = net.wait_client_closed(3.0)
+        rec["overshoots"] = list(net.overshoots)
+        rec["max_open"] = net.max_open
+        rec["pipes"] = len(net.pipes)
+        rec["harness_errors"] = list(net.errors)
+        rec["h2_max_streams"] = max([getattr(getattr(p.peer.leaf(), "h2", None), "max_open_seen", 0) for p in net.pipes] or [0])
+    rec["results"] = results
+    return rec
+
+
+def make_execute_concurrent(prop_id):
+    def execute(sc) -> Outcome:
+        rec = run_concurrent(sc)
+        harness_check(rec)
+        kind = sc["kind"]
+        h2 = is_h2(kind)
+        base = dict(conn=kind, variant=rec["variant"], layer="real-concurrent")
+        what = f"[real {rec['variant']}] {kind} max_connections={sc['max_connections']} callers={[[r['tok'] for r in p] for p in sc['callers']]}"
+        v1, v4, v12 = [], [], []
+        for ci, prog in enumerate(sc["callers"]):
+            for r, out in zip(prog, rec["results"][ci]):
+                if out["exc"] is not None:
+                    if out["exc"]["name"].endswith("Timeout") and LONG - 1 <= 20:
+                        pass
+                    # HTTP/1.1: a request to a healthy server can only fail through a connection that was not properly finished / was closed (C01);
+                    # HTTP/2: a sibling's completion or an eviction broke a request that was under way (C12)
+                    pid = "C12" if h2 else "C01"
+                    (v12 if h2 else v1).append(V(pid, "request-failed", f"{what}: caller {ci} request {r['tok']} raised {out['exc']['type']}: {out['exc']['msg'][:150]} (in "
+                                                 f"{out['exc'].get('inner')}) although server and network behaved", exc=out["exc"]["name"], **base))
+                    continue
+                tr = truth_h2(sc["plans"][r["tok"]], r["tok"], r["method"].encode()) if h2 else truth_h1(sc["plans"][r["tok"]], r["tok"], r["method"].encode())
+                if out["status"] != tr["status"] or out["headers"] != tr["headers"] or out["body"] != tr["body"]:
+                    xt = [v_ for n_, v_ in out["headers"] if n_.lower() == b"x-tok"]
+                    v1.append(V("C01", "wrong-response", f"{what}: caller {ci} asked for {r['tok']} and received status {out['status']}, x-tok {xt}, {len(out['body'])} body "
+                                f"bytes (expected {tr['status']}, {len(tr['body'])} bytes)", **base))
+            if len(rec["results"][ci]) != len(prog):
+                v1.append(V("C01", "caller-incomplete", f"{what}: caller {ci} performed {len(rec['results'][ci])} of {len(prog)} requests", **base))
+        for o in rec["overshoots"]:
+            v4.append(V("C04", "streams-overshoot", f"{what}: the server accepted connection {o['new']} while connections {o['still_open']} (to {o['targets']}) were still "
+                        f"open 0.3 s later: more than max_connections={sc['max_connections']} sockets held at once", **base))
+        tags = [kind, "variant-" + rec["variant"], f"N={sc['max_connections']}", f"callers={len(sc['callers'])}"]
+        if rec["h2_max_streams"] >= 2:
+            tags.append("h2-multiplexed")
+        if rec["pipes"] > sc["max_connections"]:
+            tags.append("connections-recycled")
+        nontrivial = rec["h2_max_streams"] >= 2 or rec["pipes"] > sc["max_connections"] or rec["max_open"] >= sc["max_connections"]
+        return Outcome({"C01": v1, "C04": v4, "C12": v12}[prop_id][:4], tags, nontrivial, info={"pipes": rec["pipes"], "max_open": rec["max_open"]})
+    return execute
+
+
+def concurrent_layer(prop_id, budget):
+    from ..prop import Layer
+
+    strat = (lambda: concurrent_scenarios(h2_only=True)) if prop_id == "C12" else concurrent_scenarios
+    return Layer("real-concurrent", strategy=strat, execute=make_execute_concurrent(prop_id), budget=budget)
+
+
+def stall_matrix(tier):
+    """C16, enumerated: every connection kind x variant x a silent peer at every stage (TCP connect, each TLS handshake, SOCKS / CONNECT reply,
+    response head, response body, upload)."""
+    cases = []
+    for kind in KINDS:
+        n_tls = 2 if kind == "tunnel-https-proxy-h1" else (1 if kind in TLS_KINDS else 0)
+        for variant in VARIANTS:
+            base = {"kind": kind, "variant": variant, "verify": "none", "plans": {"r0": {"status": 200, "body_len": 300}}}
+            get = [{"tok": "r0", "method": "GET", "body": None, "api": "request", "host": "a.test"}]
+            faults = [{"connect": 0, "kind": "connect-stall"}] + [{"tls": k, "kind": "tls-stall"} for k in range(n_tls)]
+            faults += [{"pipe": 0, "kind": "stall", "at": at} for at in (0, 3, 20, 60, 200)]
+            for f in faults:
+                cases.append(dict(base, requests=[dict(r) for r in get], fault=f))
+            cases.append(dict(base, requests=[{"tok": "r0", "method": "POST", "body": "huge", "api": "request", "host": "a.test"}],
+                              fault={"pipe": 0, "kind": "read-stall", "at": 0}))
+    return cases
 
 
 def layer_for(prop_id, budget):
